@@ -1,0 +1,46 @@
+//! Verification hooks (compiled only with `--cfg linfa_verif`).
+//!
+//! Instrumented code calls [`emit`] with one JSON object (as text) per event; the conformance
+//! harness drains the process-global buffer after each call into the library. Every event is
+//! stamped with a per-thread ordinal and a per-thread sequence number (never wall-clock time).
+use std::cell::Cell;
+use std::sync::atomic::{AtomicUsize, Ordering};
+use std::sync::Mutex;
+
+static BUFFER: Mutex<Vec<String>> = Mutex::new(Vec::new());
+static NEXT_TID: AtomicUsize = AtomicUsize::new(0);
+static ENABLED: AtomicUsize = AtomicUsize::new(0);
+
+thread_local! {
+    static TID: usize = NEXT_TID.fetch_add(1, Ordering::SeqCst);
+    static SEQ: Cell<usize> = Cell::new(0);
+}
+
+/// Turn event recording on or off (off by default, so un-instrumented runs pay nothing).
+pub fn enable(on: bool) {
+    ENABLED.store(on as usize, Ordering::SeqCst);
+}
+
+pub fn enabled() -> bool {
+    ENABLED.load(Ordering::SeqCst) != 0
+}
+
+/// Record one event. `body` is the inside of a JSON object, e.g. `"ev":"tree.node","depth":1`.
+pub fn emit(body: &str) {
+    if !enabled() {
+        return;
+    }
+    let tid = TID.with(|t| *t);
+    let seq = SEQ.with(|s| {
+        let v = s.get();
+        s.set(v + 1);
+        v
+    });
+    let line = format!("{{\"tid\":{},\"seq\":{},{}}}", tid, seq, body);
+    BUFFER.lock().unwrap().push(line);
+}
+
+/// Take all recorded events (in arrival order; order across threads is only meaningful per `tid`).
+pub fn drain() -> Vec<String> {
+    std::mem::take(&mut *BUFFER.lock().unwrap())
+}
